@@ -32,12 +32,6 @@ structure CallOk (k : Call) (e : Expect) : Prop where
   /-- in the order of the list: handlers for all PGNs before the handlers of the PGN -/
   order : k.hs.Pairwise fun i j => specPgn e.s i ≤ specPgn e.s j
 
-/-- two lists agree element by element (same length) -/
-def Agree {α β : Type} (P : α → β → Prop) : List α → List β → Prop
-  | [], [] => True
-  | a :: as, b :: bs => P a b ∧ Agree P as bs
-  | _, _ => False
-
 /-- event by event: exactly one call per completed message, in order, and it is the right call; no other call -/
 def CallsAgree : List (List Call) → List (List Expect) → Prop := Agree (Agree CallOk)
 
